@@ -5,6 +5,7 @@ mod engine;
 mod c01;
 mod c02;
 mod c04;
+mod c05;
 mod c10;
 mod c12;
 mod c20;
@@ -60,6 +61,8 @@ fn main() {
     ("C02", Some(d)) => c02::replay(&d),
     ("C04", None) => c04::run(&tier),
     ("C04", Some(d)) => c04::replay(&d),
+    ("C05", None) => c05::run(&tier),
+    ("C05", Some(d)) => c05::replay(&d),
     ("C10", None) => c10::run(&tier),
     ("C10", Some(d)) => c10::replay(&d),
     ("C12", None) => c12::run(&tier),
